@@ -46,6 +46,7 @@ TObs == \E o \in Obs :
         \/ Is(ON(o), "begin") /\ OBegin(o)
         \/ Is(ON(o), "get") /\ OGet(o) /\ K(E.msg) = K(Head(inbox[ON(o)])) /\ (K(E.msg) = "det" => E.msg.id = Head(inbox[ON(o)]).id)
         \/ Is(ON(o), "timeout") /\ OTimeout(o)
+        \/ Is(ON(o), "poll") /\ ODrain(o) /\ (K(E.msg) = "none" <=> inbox[ON(o)] = <<>>)
         \/ Is(ON(o), "end") /\ opc[o] = "done" /\ Stutter
 TSav == \/ Is("saver", "begin") /\ SBegin
         \/ Is("saver", "get") /\ SGet /\ K(E.msg) = K(Head(inbox["saver"]))
